@@ -14,6 +14,13 @@
 #ifdef CT_VALGRIND_OPS
 extern "C" {
 #include "../../crypto_pwhash/argon2/argon2-core.h"
+// group arithmetic internals, with the limb representation of the library this harness links (see tools/vbuild.py)
+#if VERIF_LIB_HAVE_TI_MODE
+# ifndef HAVE_TI_MODE
+#  define HAVE_TI_MODE 1
+# endif
+#endif
+#include "private/ed25519_ref10.h"
 }
 #endif
 
@@ -157,6 +164,12 @@ inline const std::vector<Op> &ops() {
         // ---- password hashing (definedness monitor only): Argon2i is data-independent throughout, Argon2id in pass 0 slices 0-1
         { "crypto_pwhash(argon2i, 8 KiB)", SLP(n), [](size_t n) { B().sink = crypto_pwhash(B().out, 32, (const char *) B().secret, n, B().pub, 3, 8192, crypto_pwhash_ALG_ARGON2I13); }, false, "bytes", 64, true },
         { "crypto_pwhash(argon2i, 1040 KiB)", SLP(n), [](size_t n) { B().sink = crypto_pwhash(B().out, 32, (const char *) B().secret, n, B().pub, 3, 1040 * 1024, crypto_pwhash_ALG_ARGON2I13); }, false, "bytes", 16, true },
+        // ---- the cores of Edwards / Ristretto scalar multiplication through the internal entry points, i.e. without the final public
+        //      "result is the identity" test of the API wrappers (that test is why the wrappers are excluded from this monitor)
+        { "ed25519 scalarmult core (internal)", SL(32), [](size_t) { ge25519_p3 P, Q; unsigned char t[32]; memcpy(t, B().secret, 32); t[31] &= 127; if (ge25519_frombytes(&P, B().pub + 64) != 0) return; ge25519_scalarmult(&Q, t, &P); ge25519_p3_tobytes(B().out, &Q); }, false, "scalar", 0, true },
+        { "ed25519 base scalarmult core (internal)", SL(32), [](size_t) { ge25519_p3 Q; unsigned char t[32]; memcpy(t, B().secret, 32); t[31] &= 127; ge25519_scalarmult_base(&Q, t); ge25519_p3_tobytes(B().out, &Q); }, false, "scalar", 0, true },
+        { "ristretto255 scalarmult core (internal)", SL(32), [](size_t) { ge25519_p3 P, Q; unsigned char t[32]; memcpy(t, B().secret, 32); t[31] &= 127; if (ristretto255_frombytes(&P, B().pub + 96) != 0) return; ge25519_scalarmult(&Q, t, &P); ristretto255_p3_tobytes(B().out, &Q); }, false, "scalar", 0, true },
+        { "ristretto255 base scalarmult core (internal)", SL(32), [](size_t) { ge25519_p3 Q; unsigned char t[32]; memcpy(t, B().secret, 32); t[31] &= 127; ge25519_scalarmult_base(&Q, t); ristretto255_p3_tobytes(B().out, &Q); }, false, "scalar", 0, true },
         { "argon2id first half (ref)", SLP(n), [](size_t n) { argon2id_first_half(n, 0); }, false, "bytes", 16, true },
         { "argon2id first half (ssse3)", SLP(n), [](size_t n) { if (sodium_runtime_has_ssse3()) argon2id_first_half(n, 1); }, false, "bytes", 16, true },
         { "argon2id first half (avx2)", SLP(n), [](size_t n) { if (sodium_runtime_has_avx2()) argon2id_first_half(n, 2); }, false, "bytes", 16, true },
